@@ -102,7 +102,7 @@ func (te *TypeEnv) SortOf(t types.Type) string {
 		case u.Info()&types.IsInteger != 0:
 			return te.intSort()
 		case u.Info()&types.IsFloat != 0:
-			return SF64
+			return te.FSort()
 		case u.Info()&types.IsString != 0:
 			return SStr
 		case u.Kind() == types.UnsafePointer:
@@ -220,7 +220,7 @@ func (te *TypeEnv) Zero(t types.Type) Term {
 		case u.Info()&types.IsInteger != 0:
 			return te.IntLit(0)
 		case u.Info()&types.IsFloat != 0:
-			return Term{"(_ +zero 11 53)", SF64}
+			return te.FLit(0)
 		case u.Info()&types.IsString != 0:
 			return te.G.StrLit("")
 		}
@@ -292,6 +292,57 @@ func (te *TypeEnv) MapValHeap(m *types.Map) HeapVar {
 
 func (te *TypeEnv) GlobalHeap(pkg, name string, t types.Type) HeapVar {
 	return HeapVar{"G." + sanitize(strings.TrimPrefix(pkg, "github.com/andydunstall/piko/")) + "." + name, te.SortOf(t), HGlobal}
+}
+
+// Floating point: IEEE-754 binary64 terms in 'mode bv'; in the default mode an
+// uninterpreted sort with uninterpreted operations, so that float-carrying
+// code does not drag the FP theory into every query (the facts needed about
+// the operations are proved in mode bv and restated as axioms).
+const SFU = "F64"
+
+func isFloatSort(s string) bool { return s == SF64 || s == SFU }
+
+func (te *TypeEnv) FSort() string {
+	if te.BV {
+		return SF64
+	}
+	if !te.G.dtNames[SFU] {
+		te.G.dtNames[SFU] = true
+		te.G.datatypes = append(te.G.datatypes, "(declare-sort F64 0)")
+	}
+	return SFU
+}
+
+var fpOps = map[string]string{"add": "fp.add RNE", "sub": "fp.sub RNE", "mul": "fp.mul RNE", "div": "fp.div RNE", "neg": "fp.neg",
+	"lt": "fp.lt", "leq": "fp.leq", "gt": "fp.gt", "geq": "fp.geq", "eq": "fp.eq", "isNaN": "fp.isNaN", "isInf": "fp.isInfinite",
+	"ceil": "fp.roundToIntegral RTP", "floor": "fp.roundToIntegral RTN"}
+
+func (te *TypeEnv) FOp(op string, args ...Term) Term {
+	ret := te.FSort()
+	switch op {
+	case "lt", "leq", "gt", "geq", "eq", "isNaN", "isInf":
+		ret = SBool
+	}
+	if te.BV {
+		return app(ret, fpOps[op], args...)
+	}
+	name := "f." + op
+	var sorts []string
+	for range args {
+		sorts = append(sorts, SFU)
+	}
+	te.G.DeclareFun(name, sorts, ret)
+	return app(ret, name, args...)
+}
+
+func (te *TypeEnv) FLit(f float64) Term {
+	if te.BV {
+		return floatLit(f)
+	}
+	te.FSort()
+	name := fmt.Sprintf("f.lit.%016x", mathFloat64bits(f))
+	te.G.DeclareFun(name, nil, SFU)
+	return Term{name, SFU}
 }
 
 // At reads element i of a slice view (backing array contents D, offset off).
